@@ -59,7 +59,8 @@ def run(c):
 
     def model(name, consts, checked, workers):
         k = dict(consts); k["Checked"] = "TRUE" if checked else "FALSE"
-        return c.tlc_model(name, constants=k, workers=workers, timeout=1500)
+        # -coverage makes TLC keep cost statistics for every (recursive) sub-expression: minutes and GBs here
+        return c.tlc_model(name, constants=k, workers=workers, timeout=1500, coverage=False)
 
     def stage_a():
         return c.parallel([
@@ -70,8 +71,8 @@ def run(c):
         ])
     rio, rsan, mm_fixed, bin_fixed = stage_a()
 
-    runs = [("mmfault", rio, env, 1500), ("binfault", rio, env, 1500), ("rt", rio, env, 300), ("bits", rio, env, 300),
-            ("mmfault", rsan, dict(env, **SAN_ENV), 2000), ("binfault", rsan, dict(env, **SAN_ENV), 2000)]
+    runs = [("mmfault", rio, env, 4000), ("binfault", rio, env, 4000), ("rt", rio, env, 4000), ("bits", rio, env, 4000),
+            ("mmfault", rsan, dict(env, **SAN_ENV), 4000), ("binfault", rsan, dict(env, **SAN_ENV), 4000)]
 
     def rec(i):
         mode, binary, e, chunk = runs[i]
@@ -85,10 +86,13 @@ def run(c):
 
     drift = {"drift0": 0, "drift1": 0}
     rejected = 0
-    for i, t in enumerate(traces):
+    def validate(i):
+        mode, binary, e, chunk = runs[i]
+        return c.tlc_trace("C19Trace", traces[i], label="%s%s" % (mode, "@asan" if binary == rsan else ""), chunk=chunk, env=tenv)
+    results = c.parallel([(lambda i=i: validate(i)) for i in range(len(runs))], max_workers=3)
+    for i, res in enumerate(results):
         mode, binary, e, chunk = runs[i]
         san = binary == rsan
-        res = c.tlc_trace("C19Trace", t, label="%s%s" % (mode, "@asan" if san else ""), chunk=chunk, env=tenv)
         real = []
         for ln, cl in res["bad"]:
             if cl and cl[0].startswith("drift"):
